@@ -17,6 +17,7 @@ impl Connection {
     /// C04: the configured maximum frame length is within the allocation budget the decoders are verified against
     pub closed spec fn budget_ok(&self) -> bool { self.max_packet_length <= alloc_budget() }
     pub closed spec fn ev(&self) -> Seq<Ev> { self.stream.ev@ }
+    pub closed spec fn key(&self) -> Option<Seq<u8>> { self.stream.key@ }
     pub closed spec fn locale(&self) -> Option<Seq<char>> { opt_str(self.client_locale) }
 }
 
@@ -52,6 +53,7 @@ pub proof fn lemma_outstanding_push(ev: Seq<Ev>, e: Ev)
         _ => outstanding(ev),
     })
 {
+    reveal(outstanding);
     assert(ev.push(e).drop_last() =~= ev);
 }
 
